@@ -163,8 +163,11 @@ def h_symbolic_char_replay(ti: int, c: str):
 
 
 GRAPH_TEXTS = ['(a / b)', '# ::id 1\n# ::snt x ; (y) " # z\n(c / d :e "f g")',
+               '# ::snt \u3000lead\u2028in  two\n# ::t  \tx\n(s / t)',
                '# ::e\n(h / i :j (k / l))', '# ::n a b\n(m :o-of (p))',
                '(q / r :s 0)']
+SET_METAS = [{}, {'snt': '\u3000lead\u2028in'}, {'id': '  two  spaces', 'e': ''},
+             {'k': '; ( ) " #'}]
 DUMP_INDENTS = [-1, None, 0, 3]
 JOINERS = ['\n\n', '\n', ' ']
 
@@ -185,7 +188,14 @@ def h_dump_load(n: int, **sym):
     for i in range(n):
         gi = sym[f'g{i}']
         bound_int(gi, 0, len(GRAPH_TEXTS))
-        gs.append(penman.decode(progs.pick(gi, GRAPH_TEXTS)))
+        g = penman.decode(progs.pick(gi, GRAPH_TEXTS))
+        if i == 0:
+            # metadata set programmatically (not obtained by parsing): values
+            # that start with blanks or non-ASCII separators, empty values
+            mi = sym['meta0']
+            bound_int(mi, 0, len(SET_METAS))
+            g.metadata.update(progs.pick(mi, SET_METAS))
+        gs.append(g)
     ii, ji, ci = sym['indent'], sym['joiner'], sym['compact']
     bound_int(ii, 0, len(DUMP_INDENTS))
     bound_int(ji, 0, len(JOINERS))
@@ -218,6 +228,7 @@ def h_dump_load(n: int, **sym):
 
 h_dump_load.params_for = lambda fixed: {
     k: v for k, v in {**{f'g{i}': int for i in range(fixed['n'])},
+                      **({'meta0': int} if fixed['n'] else {}),
                       'indent': int, 'joiner': int, 'compact': int}.items()
     if k not in fixed}
 
